@@ -63,6 +63,13 @@ func (t *scriptedTransport) RoundTrip(req *http.Request) (*http.Response, error)
 	case 5: // close-delimited response (no Content-Length) whose connection drops half way
 		resp.ContentLength = -1
 		resp.Body = &faultyBody{r: bytes.NewReader(t.body[:len(t.body)/2]), failAt: -1}
+	case 6: // a mirror that answers with a part of the file (206) and announces the length of that part
+		part := t.body[:len(t.body)/3]
+		resp.StatusCode, resp.Status, resp.ContentLength = 206, "206 Partial Content", int64(len(part))
+		resp.Body = &faultyBody{r: bytes.NewReader(part), failAt: -1}
+	case 7: // ... or with no content at all (204)
+		resp.StatusCode, resp.Status, resp.ContentLength = 204, "204 No Content", 0
+		resp.Body = io.NopCloser(bytes.NewReader(nil))
 	default:
 		resp.Body = &faultyBody{r: bytes.NewReader(t.body), failAt: -1}
 	}
